@@ -97,12 +97,16 @@ def main(argv=None):
         for s in summary:
             print(f'  {s["rule"]}: {s["instances"]} instances '
                   f'(floor {s["floor"]}), {s["violations"]} violating')
+        for exc in ctx.errors:
+            print(f'ANALYSIS-ERROR {exc} (rule failed closed; findings of the other rules follow)')
         if new:
             for n, f in enumerate(new):
                 p = write_replay(f, n)
                 print(f'  finding {f.key}\n    at {f.loc}\n    {f.msg}')
                 print(f'VIOLATION property={prop} replay={p}')
             return 1
+        if ctx.errors:
+            return 2
         print(f'OK property={prop} tier={args.tier} rules={len(summary)} '
               f'instances={sum(s["instances"] for s in summary)} '
               f'known={len(old)} wall={time.time() - t0:.2f}s')
